@@ -19,7 +19,13 @@ pub const FN_NAMES: [&str; 6] = ["f", "g", "h", "k", "n", "r"];
 pub const SHADOW_NAMES: [&str; 3] = ["len", "str::from", "math::abs"];
 pub const VAR_NAMES: [&str; 3] = ["a", "b", "c"];
 /// further variable names used now and then (case variants, longer names)
-pub const EXTRA_VAR_NAMES: [&str; 6] = ["A", "B", "C", "ab", "a_1", "a.b"];
+/// (case variants, a dotted and a namespaced name, a builtin's name, two spellings of a number)
+pub const EXTRA_VAR_NAMES: [&str; 10] = [
+    "A", "B", "C", "ab", "a_1", "a.b", "max", "ns::x", "x1", "x01",
+];
+/// an identifier longer than 64 bytes that is never bound (variable) / never registered (function)
+pub const LONG_UNBOUND_NAME: &str =
+    "a_rather_long_identifier_that_nobody_ever_bound_to_anything_at_all_0123456789";
 pub const UNBOUND_NAME: &str = "zz";
 pub const UNKNOWN_FN: &str = "nofn";
 /// argument the harness uses when it probes functions (the stateful sentinel only reads on it)
@@ -39,6 +45,14 @@ pub fn sentinel(name: &str, arg: &V) -> V {
                 "1 + 1",
                 &EmptyContextWithBuiltinFunctions::<DefaultNumericTypes>::default(),
             );
+            // ... and one that fails, which the function handles itself
+            let failed = evalexpr::eval_with_context(
+                "1 / 0",
+                &EmptyContextWithBuiltinFunctions::<DefaultNumericTypes>::default(),
+            );
+            if failed.is_ok() {
+                return Value::String("nested 1 / 0 did not fail".into());
+            }
             match inner {
                 Ok(Value::Int(2)) => Value::Tuple(vec![Value::String("r".into()), arg.clone()]),
                 other => Value::String(format!("re-entrant evaluation gave {:?}", other)),
